@@ -10,7 +10,7 @@ use std::collections::BTreeMap;
 
 /// two special erasure patterns for K=10 found with the reference rank oracle:
 /// one rank-deficient set of exactly K symbols, one set where the GF(2)-only fast path must fall back
-fn specials() -> Vec<(u32, Vec<u32>)> {
+pub fn specials() -> Vec<(u32, Vec<u32>)> {
     let k = 10u32;
     let esis: Vec<u32> = (0..k + 14).chain(far_esis(k)).collect();
     let u = make_universe(k, esis.clone(), 250, usize::MAX);
